@@ -111,7 +111,7 @@ def c05(tier, seed):
 
 
 def c11(tier, seed):
-    ops = BASE + CONV + ["Borrow", "BorCopy", "Enter", "Exit"]
+    ops = BASE + CONV + ["Borrow", "BorCopy", "Enter", "Exit", "PtrEq"]
     return [lay("C11", tier, "layout_matrix_" + tier[0]),
             sized("C11", tier, "sized_raw_" + tier[0], ops, 3 if tier == "quick" else 4, 2, 1),
             slices("C11", tier, "slices_raw_" + tier[0], 3 if tier == "quick" else 4, 2, 2)] + swaps("C11", tier, seed, hows=("init", "thin"))
@@ -311,7 +311,7 @@ def c09(tier, seed):
 
 
 def c12(tier, seed):
-    ops = BASE + ["FromFirst", "FromSecond", "Borrow", "BorCopy", "Enter", "Exit", "IntoRaw", "FromRaw"]
+    ops = BASE + ["FromFirst", "FromSecond", "Borrow", "BorCopy", "Enter", "Exit", "IntoRaw", "FromRaw", "PtrEq"]
     if tier == "quick":
         return [sized("C12", tier, "sized_union_q", ops, 4, 2, 1, hows=("new", "newB")), lay("C12", tier, "layout_matrix_q"),
                 stage(CM.compare_stage, "C12", tier, "union_variants_q", only=["different variants"]),
